@@ -77,6 +77,17 @@ func Load(repo string, overlay map[string]string, patterns []string) (*Program, 
 			}
 			P.redirect[real] = fn
 		}
+		// models of functions of other packages that need the harness package's types
+		if pk := P.pkgs[modPath+"/src"]; pk != nil {
+			for real, model := range map[string]string{
+				"github.com/charlievieth/fastwalk.Walk":            "zzMX_fastwalk_Walk",
+				"github.com/charlievieth/fastwalk.DefaultToSlash": "zzMX_fastwalk_DefaultToSlash",
+			} {
+				if fn := pk.Func(model); fn != nil {
+					P.redirect[real] = fn
+				}
+			}
+		}
 		// models that need the target package's types live in its harness files: zzM_<Func> replaces <Func>
 		for _, path := range []string{modPath + "/src", modPath + "/src/algo", modPath + "/src/util"} {
 			if pk := P.pkgs[path]; pk != nil {
@@ -89,7 +100,7 @@ func Load(repo string, overlay map[string]string, patterns []string) (*Program, 
 		}
 	}
 	for _, s := range []string{modPath + "/src/algo", modPath + "/src/util", modPath + "/src", modPath + "/src/zzv",
-		"unicode", "unicode/utf8", "strings", "bytes", "strconv", "sort", "math", "math/bits", "unicode/utf16", "io", "errors", "io/fs", "bufio",
+		"unicode", "unicode/utf8", "strings", "bytes", "strconv", "sort", "math", "math/bits", "unicode/utf16", "io", "errors", "io/fs", "bufio", "path/filepath", "path",
 		"internal/stringslite", "slices", "cmp", "crypto/subtle"} {
 		P.initPkgs[s] = true
 	}
@@ -116,7 +127,7 @@ func (P *Program) initOKPkg(path string) bool {
 	switch path {
 	case modPath + "/src/algo", modPath + "/src/util", modPath + "/src", modPath + "/src/zzv", modPath + "/src/tui",
 		"unicode", "unicode/utf8", "strings", "bytes", "errors", "sort", "math", "math/bits", "strconv", "slices", "cmp",
-		"internal/stringslite", "internal/bytealg", "unicode/utf16", "internal/itoa", "io", "io/fs", "internal/oserror", "bufio":
+		"internal/stringslite", "internal/bytealg", "unicode/utf16", "internal/itoa", "io", "io/fs", "internal/oserror", "bufio", "path/filepath", "path":
 		return true
 	}
 	return false
